@@ -273,7 +273,7 @@ Proof.
     apply map_nth. }
   exists (opt_step hb (EV_BEFORE + id) ++ concat (map F l1a)), (concat (map F l1b)),
          (concat (map F l2) ++ opt_step he (EV_EXTRA + id)).
-  rewrite !map_app. cbn [map]. rewrite !concat_app. cbn [concat]. rewrite concat_app. cbn [concat].
+  rewrite !map_app. cbn [map]. rewrite !concat_app. cbn [concat].
   rewrite (Hnth j Hjlt), (Hnth i Hi). rewrite <- !app_assoc. reflexivity.
 Qed.
 
